@@ -97,7 +97,10 @@ func Run(o Opts) (*Result, error) {
 			return nil, err
 		}
 	}
-	args := []string{"-XX:+UseParallelGC", fmt.Sprintf("-Xmx%dm", o.HeapMB), "-Xss64m"}
+	// TLC unpacks its standard modules into java.io.tmpdir on every run: keep that inside the scratch directory
+	jtmp := filepath.Join(dir, "jtmp")
+	os.MkdirAll(jtmp, 0755)
+	args := []string{"-XX:+UseParallelGC", fmt.Sprintf("-Xmx%dm", o.HeapMB), "-Xss64m", "-Djava.io.tmpdir=" + jtmp}
 	if o.DFS {
 		args = append(args, "-Dtlc2.tool.queue.IStateQueue=StateDeque")
 	}
